@@ -97,12 +97,60 @@ def _run_case(sub, spec, ctx):
         sub.check(spec, ctx)
     except KnownSkip:
         pass
+    except (Violation, HarnessError, ValueError, AssertionError, MemoryError):
+        raise  # ValueError (incl. pydantic's) is what input validation raises: a spec that builds no valid input is the harness's problem
+    except Exception as e:
+        # A TypeError / KeyError / AttributeError / IndexError / OSError ... raised INSIDE the library, on an input the check built and
+        # treats as valid, in a call the check did not expect to fail: the library broke, not the harness.
+        import traceback as _tb
+
+        frames = _tb.extract_tb(e.__traceback__)
+        lib = [f for f in frames if "/soundevent/" in f.filename.replace("\\", "/") and "/verif/" not in f.filename]
+        if not lib:
+            raise
+        where = lib[-1]
+        fail = ctx.fail(
+            f"{type(e).__name__}: {str(e)[:200]} raised inside the library ({os.path.basename(where.filename)}:{where.lineno} {where.name}) on an input the check treats as valid",
+            spec, repr(e)[:300], "no exception", kind="raised_in_library",
+        )
+        return fail
     finally:
         _WD["t"] = None
 
 
+_ENV_DONE = {}
+
+
+def _process_environment():
+    """Process conditions under which the library must behave the same (set once per process, main and workers alike):
+    * a small budget of open files (128): a descriptor leaked per call shows up within one shard instead of after a thousand calls;
+    * DEBUG logging switched on for the 'soundevent' loggers, records formatted and thrown away: a log statement that cannot be
+      formatted, or that computes its arguments wrongly, raises where the caller sees it."""
+    if _ENV_DONE:
+        return
+    _ENV_DONE["x"] = True
+    try:
+        import resource
+
+        soft, hard = resource.getrlimit(resource.RLIMIT_NOFILE)
+        resource.setrlimit(resource.RLIMIT_NOFILE, (min(128, soft if soft > 0 else 128), hard))
+    except Exception:
+        pass
+    import logging
+
+    class _FormatAndDrop(logging.Handler):
+        def emit(self, record):
+            record.getMessage()  # formatting errors propagate (logging.raiseExceptions is left at its default for other handlers)
+
+    lg = logging.getLogger("soundevent")
+    lg.setLevel(logging.DEBUG)
+    lg.addHandler(_FormatAndDrop())
+    lg.propagate = False
+
+
 def run_shard(task):
     """Executed in a worker process.  Returns a plain dict."""
+    _process_environment()
     modname, subname, shard, nshards, n, seed, tier, preds_ids = task
     t0 = time.time()
     out = {"sub": subname, "shard": shard, "failure": None, "harness_error": None}
@@ -260,17 +308,22 @@ def minimise(sub: Sub, preds, prop, failure, budget):
 def _reexec_with_replay_hashseed(path):
     """A replay file records the PYTHONHASHSEED of the run that produced it; replaying happens under the same string hashing."""
     try:
-        hs = json.load(open(path)).get("hashseed")
+        rec = json.load(open(path))
     except Exception:
         return
-    if hs is not None and os.environ.get("PYTHONHASHSEED") != str(hs) and not os.environ.get("VERIF_NO_REEXEC"):
-        os.environ["PYTHONHASHSEED"] = str(hs)
+    hs, opt = rec.get("hashseed"), int(rec.get("optimize") or 0)
+    need_hs = hs is not None and os.environ.get("PYTHONHASHSEED") != str(hs)
+    need_opt = bool(opt) and not sys.flags.optimize
+    if (need_hs or need_opt) and not os.environ.get("VERIF_NO_REEXEC"):
+        if hs is not None:
+            os.environ["PYTHONHASHSEED"] = str(hs)
         os.environ["VERIF_NO_REEXEC"] = "1"
-        os.execv(sys.executable, [sys.executable, "-W", "ignore", "-m", "vf.runner"] + sys.argv[1:])
+        os.execv(sys.executable, [sys.executable] + (["-O"] if opt else []) + ["-W", "ignore", "-m", "vf.runner"] + sys.argv[1:])
 
 
 def write_replay(prop, failure, outdir):
     failure.setdefault("hashseed", os.environ.get("PYTHONHASHSEED"))
+    failure.setdefault("optimize", int(sys.flags.optimize))
     os.makedirs(outdir, exist_ok=True)
     h = spec_hash(failure["spec"])
     path = os.path.join(outdir, f"{failure['subcheck']}-{h:016x}.json")
@@ -321,6 +374,7 @@ def main(argv=None):
         return 2
 
     # ---- replay of one file ------------------------------------------------
+    _process_environment()
     if args.replay:
         _reexec_with_replay_hashseed(args.replay)
         try:
@@ -530,12 +584,28 @@ def main(argv=None):
         print(f"  first failure [{first['subcheck']}] {first['message']}")
         print(f"VIOLATION property={prop} replay={violation_path}")
         return 1
-    if vacuous:
+    if vacuous and not os.environ.get("VERIF_OPT_CHILD"):
         for v in vacuous:
             print("VACUOUS " + v, file=sys.stderr)
         print(f"HARNESS-ERROR property={prop} (vacuity guard)")
         return 2
-    print(f"OK property={prop} tier={args.tier} seed={seed} evaluations={evaluations + n_replays} wall={wall:.1f}s")
+    # ---- the same check, a slice of it, in an interpreter started with -O (assert statements stripped): validators written as
+    # asserts vanish there.  The child is this runner; its verdict is the parent's.
+    if not os.environ.get("VERIF_OPT_CHILD") and not args.only and not os.environ.get("VERIF_NO_OPT_PASS"):
+        import subprocess
+
+        env = dict(os.environ, VERIF_OPT_CHILD="1", PYTHONOPTIMIZE="1")
+        cmd = [sys.executable, "-O", "-W", "ignore", "-m", "vf.runner", prop, "--tier", args.tier, "--scale", str(args.scale * (0.12 if args.tier == "quick" else 0.04)), "--no-evidence", "--procs", str(args.procs)]
+        r = subprocess.run(cmd, env=env, capture_output=True, text=True)
+        lines = r.stdout.splitlines()
+        if r.returncode == 1:
+            for l in lines:
+                if l.startswith(("  first failure", "VIOLATION")):
+                    print(l.replace("  first failure", "  first failure (interpreter started with -O)"))
+            return 1
+        okl = [l for l in lines if l.startswith("OK property=")]
+        print(f"  {prop}: pass under python -O: " + (okl[0].split("evaluations=")[1].split()[0] + " evaluations, no violation" if okl else f"inconclusive (exit {r.returncode})"))
+    print(f"OK property={prop} tier={args.tier} seed={seed} evaluations={evaluations + n_replays} wall={time.time() - t0:.1f}s")
     return 0
 
 
